@@ -170,6 +170,7 @@ type Scenario struct {
 	SubConn      int    // submissions start at this (0-based) onconnect; -1: before the call (queued when the connection comes up)
 	ConnectSleep int    // ms the onconnect callback takes
 	ConnectWrite []byte // bytes the onconnect callback writes to the conn it is handed
+	HookDelay    int    // ms: the writer goroutine of the FIRST connection is held at its start for this long (verif hook; runs alone)
 }
 
 // ---------- canonical digests (oracle values for unmarshal / decode / marshal) ----------
@@ -311,6 +312,7 @@ func runScenario(sc *Scenario) []Sx {
 		cancel()
 	} else {
 		var wg sync.WaitGroup
+		hookDone := installWriterHook(sc, lg)
 		toPanel := make(chan []*rwp.InboundMessage)
 		fromPanel := make(chan []*rwp.OutboundMessage)
 		recvDone := make(chan struct{})
@@ -379,9 +381,21 @@ func runScenario(sc *Scenario) []Sx {
 			}()
 			rwl.ConnectToPanel(addr, toPanel, fromPanel, ctx, &wg, onconnect, ondisconnect, cfg)
 		}()
+		wgDone := make(chan struct{})
+		startWait := func() {
+			go func() {
+				wg.Wait()
+				t := lg.ms()
+				lg.mu.Lock()
+				wgT = t
+				lg.mu.Unlock()
+				close(wgDone)
+			}()
+		}
 		if sc.Cancel > 0 {
 			time.Sleep(time.Until(lg.start.Add(time.Duration(sc.Cancel) * time.Millisecond)))
 			cancel()
+			startWait() // the caller waits for "everything is shut down internally" right after cancelling
 		}
 		// bounded wait for the return: retry sleep + ASCII EOF sleep + probe window + margin
 		re := sc.ReConn
@@ -392,14 +406,17 @@ func runScenario(sc *Scenario) []Sx {
 		select {
 		case <-returned:
 			retT = lg.ms()
-			wgDone := make(chan struct{})
-			go func() { wg.Wait(); close(wgDone) }()
+			if sc.Cancel <= 0 {
+				startWait()
+			}
 			select {
 			case <-wgDone:
-				wgT = lg.ms()
-			case <-time.After(1500 * time.Millisecond):
+			case <-time.After(time.Duration(1500+sc.HookDelay) * time.Millisecond):
 			}
 		case <-time.After(grace):
+		}
+		if hookDone != nil {
+			hookDone()
 		}
 		subWG.Wait()
 		if retT >= 0 {
@@ -425,8 +442,11 @@ func runScenario(sc *Scenario) []Sx {
 	if retT >= 0 {
 		ev = append(ev, L(Sym("ret"), retT))
 	}
-	if wgT >= 0 {
-		ev = append(ev, L(Sym("wg"), wgT))
+	lg.mu.Lock()
+	wgObs := wgT
+	lg.mu.Unlock()
+	if wgObs >= 0 {
+		ev = append(ev, L(Sym("wg"), wgObs))
 	}
 	for i, p := range ps {
 		lg.mu.Lock()
@@ -588,7 +608,7 @@ func (sc *Scenario) inputSx() []Sx {
 		subs = append(subs, one)
 	}
 	return []Sx{
-		L(Sym("cfg"), Sym(sc.Entry), sc.UseCfg, sc.NoConn, sc.ReConn, sc.ListenFrom, sc.Cancel, sc.Sensitive, sc.RecvFrom, sc.SubConn, sc.ConnectSleep, sc.ConnectWrite),
+		L(Sym("cfg"), Sym(sc.Entry), sc.UseCfg, sc.NoConn, sc.ReConn, sc.ListenFrom, sc.Cancel, sc.Sensitive, sc.RecvFrom, sc.SubConn, sc.ConnectSleep, sc.ConnectWrite, sc.HookDelay),
 		conns, ol, L(Sym("subs"), sc.SubStart, subs),
 	}
 }
@@ -656,6 +676,9 @@ func parseScenario(line string) *Scenario {
 	}
 	if len(cfg) > 11 {
 		sc.SubConn, sc.ConnectSleep, sc.ConnectWrite = cfg[9].Int(), cfg[10].Int(), cfg[11].Bytes()
+	}
+	if len(cfg) > 12 {
+		sc.HookDelay = cfg[12].Int()
 	}
 	for _, c := range n.Kids[3].Kids {
 		var cs ConnScript
@@ -753,13 +776,13 @@ func runBatch(scs []*Scenario, par int) {
 	sem := make(chan struct{}, par)
 	var wg sync.WaitGroup
 	for i := range scs { // memory-measuring scenarios run alone
-		if scs[i].MeasureMem {
+		if scs[i].MeasureMem || scs[i].HookDelay > 0 {
 			ev := runScenario(scs[i])
 			results[i].line = sxString(scs[i].caseSx(ev))
 		}
 	}
 	for i := range scs {
-		if scs[i].MeasureMem {
+		if scs[i].MeasureMem || scs[i].HookDelay > 0 {
 			continue
 		}
 		wg.Add(1)
@@ -857,7 +880,7 @@ func runInChild() bool {
 			tail = tail[:3000]
 		}
 		fmt.Fprintln(os.Stderr, "harness child died:", err, tail)
-		fmt.Fprintln(os.Stdout, "(scn harness-child-died (cfg client 0 0 0 0 0 0 0 0 0 #) () (orc) (subs 0 ()) (rorc) (obs (panic 0)))")
+		fmt.Fprintln(os.Stdout, "(scn harness-child-died (cfg client 0 0 0 0 0 0 0 0 0 # 0) () (orc) (subs 0 ()) (rorc) (obs (panic 0)))")
 	}
 	return true
 }
